@@ -81,14 +81,14 @@ def base_env():
 
 def make_env(a_rec, nr, a_names, b_rec=None, bnr=None, b_names=None, has_join=False, extra=None):
     env = base_env()
-    for i in range(MAXV):
+    for i in range(max(MAXV, len(a_rec) + 1, len(a_names or ()) + 1)):       # wide tables: a17 ... a101 exist too
         env['a%d' % (i + 1)] = a_rec[i] if i < len(a_rec) else None
     env['a'] = RecView(a_rec, a_names, nr)
     env['NR'] = nr
     env['aNR'] = nr
     env['NF'] = len(a_rec)
     if has_join:
-        for i in range(MAXV):
+        for i in range(max(MAXV, len(b_rec or ()) + 1, len(b_names or ()) + 1)):
             env['b%d' % (i + 1)] = (b_rec[i] if (b_rec is not None and i < len(b_rec)) else None)
         env['b'] = RecView(b_rec, b_names, bnr)
         env['bNR'] = bnr
